@@ -83,7 +83,7 @@ func raceReports(out string) []string {
 // once-guard is one atomic action of the model). Oracles: at most one Output write, never
 // after the return; no panic (double close of done); the race detector watches resultErr.
 func dupStress(c *hx.Ctx, prop string) {
-	trials := c.N(150, 4000)
+	trials := c.N(150, 1500)
 	for t := 0; t < trials && StuckTotal < 3; t++ {
 		rng := c.Rng.Fork()
 		k := 2 + rng.Intn(3)
